@@ -1,0 +1,89 @@
+//go:build verif
+
+package term
+
+import (
+	"io"
+	"os"
+
+	"git.sr.ht/~rockorager/vaxis"
+)
+
+// Hooks for the verification harness of property C13 (/verif/harness/c13).
+// Add-only, guarded by the build tag "verif": re-exports, a read-only snapshot
+// and a PTY stand-in (an os.Pipe), no logic.
+
+// VerifC13EncodeXterm re-exports encodeXterm.
+func VerifC13EncodeXterm(key vaxis.Key, deckpam bool, decckm bool) string {
+	return encodeXterm(key, deckpam, decckm)
+}
+
+// VerifC13ModeOp is one mode-setting control function received from the child:
+// Kind 'h' = CSI ? N h (DECSET), 'l' = CSI ? N l (DECRST), '=' = ESC = (DECKPAM),
+// '>' = ESC > (DECKPNM).
+type VerifC13ModeOp struct {
+	Kind byte
+	N    int
+}
+
+// VerifC13Modes is a copy of the input-related fields of mode.
+type VerifC13Modes struct {
+	Deckpam, Decckm, Paste                        bool
+	MouseButtons, MouseDrag, MouseMotion, MouseSGR bool
+	AltScroll, Smcup                              bool
+}
+
+// VerifC13Term is an emulator without child: the PTY is replaced by a pipe.
+type VerifC13Term struct {
+	vt *Model
+	r  *os.File
+}
+
+// VerifC13New returns an emulator (80x24) whose PTY is the write end of a pipe.
+func VerifC13New() (*VerifC13Term, error) {
+	r, w, err := os.Pipe()
+	if err != nil {
+		return nil, err
+	}
+	vt := New()
+	vt.pty = w
+	vt.resize(80, 24)
+	return &VerifC13Term{vt: vt, r: r}, nil
+}
+
+// Apply runs the emulator's own dispatch (Model.csi / Model.esc) on the
+// mode-setting control functions, as if the child had written them.
+func (t *VerifC13Term) Apply(ops []VerifC13ModeOp) {
+	for _, op := range ops {
+		switch op.Kind {
+		case 'h':
+			t.vt.csi("?h", [][]int{{op.N}})
+		case 'l':
+			t.vt.csi("?l", [][]int{{op.N}})
+		case '=':
+			t.vt.esc("=")
+		case '>':
+			t.vt.esc(">")
+		}
+	}
+}
+
+// Modes is a read-only snapshot of the input-related modes.
+func (t *VerifC13Term) Modes() VerifC13Modes {
+	m := t.vt.mode
+	return VerifC13Modes{
+		Deckpam: m.deckpam, Decckm: m.decckm, Paste: m.paste,
+		MouseButtons: m.mouseButtons, MouseDrag: m.mouseDrag, MouseMotion: m.mouseMotion, MouseSGR: m.mouseSGR,
+		AltScroll: m.altScroll, Smcup: m.smcup,
+	}
+}
+
+// Update calls Model.Update(ev) and returns the bytes written to the PTY
+// stand-in.  The emulator cannot be used afterwards.
+func (t *VerifC13Term) Update(ev vaxis.Event) []byte {
+	t.vt.Update(ev)
+	t.vt.pty.Close()
+	b, _ := io.ReadAll(t.r)
+	t.r.Close()
+	return b
+}
